@@ -9,14 +9,19 @@
 (* Eff(h) (docs/usage.md, statement of C17):                               *)
 (*   body defines the name -                                               *)
 (*     metaclass not in effect      : ordinary Python, the last definition *)
+(*                                    (an overload of one if it is marked)  *)
 (*     one unmarked definition      : an ordinary function (no dispatch)   *)
 (*     several, none marked         : one overload over exactly those      *)
 (*     some definition extend_super : the union over all bases that have   *)
 (*        the name (an overload contributes its set, a plain function      *)
 (*        itself) overlaid by the body's definitions (same annotation =    *)
 (*        replaced)                                                        *)
-(*   body does not define it        : ordinary attribute lookup; the       *)
-(*        generator only produces single-base classes here, so Eff(base)   *)
+(*   body does not define it        : ordinary attribute lookup - under a  *)
+(*        single base Eff(base); under several bases the first base that   *)
+(*        has the name, merged with every later base whose method carries  *)
+(*        the extend_super mark (tests: class Four(Two, Three): pass).     *)
+(*        The generator only produces unrelated bases here, so that "first *)
+(*        base" and Python's MRO agree.                                    *)
 (* A plain function is returned as a method annotated `any` (it runs on    *)
 (* everything); inside a union it takes part with its declared type.       *)
 (***************************************************************************)
@@ -30,19 +35,44 @@ MethRec(d, reg, asAny) ==
    reqpos |-> 1, kwn |-> <<>>, kwt |-> <<>>, kwreq |-> <<>>]
 
 RECURSIVE EffDefs(_, _)
+RECURSIVE MarkedAttr(_, _)
+RECURSIVE AncHosts(_, _)
+AncHosts(hosts, h) == {h} \cup UNION {AncHosts(hosts, b) : b \in RangeC(hosts[h].bases)}
+OwnsName(hosts, h) == \E a \in AncHosts(hosts, h) : hosts[a].body # <<>>
+
+(* the attribute a class exposes for the name carries the extend_super mark: *)
+(* its body's first definition was marked and no base had the name yet      *)
+(* (otherwise the body's definitions were merged into a fresh copy), or it   *)
+(* is inherited unchanged from a single base that exposes a marked one       *)
+MarkedAttr(hosts, h) ==
+  LET H == hosts[h] IN
+  IF H.body # <<>> THEN
+       IF H.mc THEN H.body[1].marked /\ \A b \in RangeC(H.bases) : ~OwnsName(hosts, b)
+       ELSE H.body[Len(H.body)].marked
+  ELSE IF Len(H.bases) = 1 THEN MarkedAttr(hosts, H.bases[1])
+  ELSE FALSE
+
 (* the definitions (with their declared types) a class dispatches over, or  *)
 (* a single one flagged plain *)
 EffDefs(hosts, h) ==
   LET H == hosts[h]  own == H.body IN
   IF own # <<>> THEN
-       IF ~H.mc THEN [plain |-> TRUE, defs |-> {own[Len(own)]}]
+       IF ~H.mc THEN [plain |-> ~own[Len(own)].marked, defs |-> {own[Len(own)]}]   \* extend_super alone makes an overload of one
        ELSE IF Len(own) = 1 /\ ~own[1].marked THEN [plain |-> TRUE, defs |-> {own[1]}]
        ELSE IF \A j \in DOMAIN own : ~own[j].marked THEN [plain |-> FALSE, defs |-> RangeC(own)]
        ELSE LET inherited == UNION {EffDefs(hosts, b).defs : b \in RangeC(H.bases)}
                 ownT == {own[j].t : j \in DOMAIN own}
             IN [plain |-> FALSE, defs |-> {d \in inherited : d.t \notin ownT} \cup RangeC(own)]
   ELSE IF H.bases = <<>> THEN [plain |-> FALSE, defs |-> {}]
-  ELSE EffDefs(hosts, H.bases[1])
+  ELSE IF Len(H.bases) = 1 THEN EffDefs(hosts, H.bases[1])
+  ELSE \* no definition of its own under several bases (cf. tests: class Four(Two, Three): pass): the first
+       \* base that has the name, merged with every later base whose method is marked extend_super
+       LET having == SelectSeq(H.bases, LAMBDA b : OwnsName(hosts, b)) IN
+       IF having = <<>> THEN [plain |-> FALSE, defs |-> {}]
+       ELSE LET later == {having[j] : j \in {j \in 2..Len(having) : MarkedAttr(hosts, having[j])}} IN
+            IF later = {} THEN EffDefs(hosts, having[1])
+            ELSE [plain |-> FALSE,
+                  defs |-> EffDefs(hosts, having[1]).defs \cup UNION {EffDefs(hosts, b).defs : b \in later}]
 
 EffMethods(hosts, h) ==
   LET e == EffDefs(hosts, h) IN
